@@ -1,5 +1,5 @@
 # sourced by every script: offline Go environment, caches inside /verif
 export GOFLAGS=-mod=mod GOPROXY=off GOSUMDB=off GOTOOLCHAIN=local
 export GOCACHE=/verif/.cache/go
-export VERIF_ROOT=/verif
+export VERIF_ROOT="${VERIF_ROOT:-/verif}"
 mkdir -p /verif/.cache/go /verif/.build/bin
